@@ -31,7 +31,7 @@ Shifted(E, k) == LET uu == <<IF k = 1 THEN 1 ELSE 0, IF k = 2 THEN 1 ELSE 0, IF 
   {<<e[1], e[2], VAdd(VAdd(e[3], IF e[2] = 1 THEN Neg(uu) ELSE Zero3), IF e[1] = 1 THEN uu ELSE Zero3)>> : e \in E}
 \* the (expensive) evaluation is one action so that TLC's workers share it
 Evaluate == /\ res = <<>>
-            /\ LET E == EdgesOf(Cells[ci], P3, Pos, thr, KB) IN
+            /\ \E E \in {EdgesOf(Cells[ci], P3, Pos, thr, KB)} :      \* bound once (TLC re-evaluates LET definitions lazily)
                res' = [algo |-> AlgoDim(E, A, P3), gf2 |-> DimGF2(E, A), z |-> DefDim(E, A),
                        shifted |-> {DefDim(Shifted(E, k), A) : k \in {x \in 1..3 : pbc[x]}}, nedges |-> Cardinality(E)]
             /\ UNCHANGED <<ci, pbc, atoms, thr>>
